@@ -206,27 +206,112 @@ def build_coq(targets, timeout=1500):
         return ok, log
 
 
+def strip_coq(txt):
+    """remove (nested) comments and string literals from Coq source"""
+    out = []
+    i, n, depth, instr = 0, len(txt), 0, False
+    while i < n:
+        c = txt[i]
+        if instr:
+            if c == '"':
+                if i + 1 < n and txt[i + 1] == '"':
+                    i += 2
+                    continue
+                instr = False
+            i += 1
+            continue
+        if depth == 0 and c == '"':
+            instr = True
+            i += 1
+            out.append(' ""')
+            continue
+        if c == "(" and i + 1 < n and txt[i + 1] == "*":
+            depth += 1
+            i += 2
+            continue
+        if depth > 0 and c == "*" and i + 1 < n and txt[i + 1] == ")":
+            depth -= 1
+            i += 2
+            out.append(" ")
+            continue
+        if depth > 0 and c == '"':
+            # strings inside comments are lexed as strings by Coq
+            j = i + 1
+            while j < n and txt[j] != '"':
+                j += 1
+            i = j + 1
+            continue
+        if depth == 0:
+            out.append(c)
+        i += 1
+    return "".join(out)
+
+
 def theorems_of(vfile):
     """names of Theorem/Lemma/Corollary/Example statements in a .v file"""
-    txt = open(vfile).read()
-    txt = re.sub(r"\(\*.*?\*\)", "", txt, flags=re.S)
+    txt = strip_coq(open(vfile).read())
     return re.findall(r"^\s*(?:Theorem|Lemma|Corollary|Example|Fact|Proposition)\s+([A-Za-z_][A-Za-z0-9_']*)", txt, flags=re.M)
 
 
-def grep_gate():
-    """the development must not contain Admitted/admit/Axiom/Parameter/Conjecture or kernel-check switches"""
+def _module_file(mod):
+    """Argot.Model.Defers / ArgotGen.GenStd / Model.Defers -> path of the .v file, or None (library module)"""
+    parts = mod.split(".")
+    if parts[0] == "Argot":
+        return os.path.join(COQ, "theories", *parts[1:]) + ".v"
+    if parts[0] == "ArgotGen":
+        return os.path.join(COQ, "gen", *parts[1:]) + ".v"
+    return None
+
+
+def coq_deps(vfile):
+    """transitive closure of the development's own files Required by vfile (by scanning Require statements)"""
+    seen, todo = set(), [vfile]
+    while todo:
+        f = todo.pop()
+        if f in seen or not os.path.exists(f):
+            continue
+        seen.add(f)
+        txt = strip_coq(open(f).read())
+        for m in re.finditer(r"(?:From\s+(\S+)\s+)?Require\s+(?:Import\s+|Export\s+)?(.*?)\.(?=\s|$)", txt, flags=re.S):
+            frm, mods = m.group(1), m.group(2).split()
+            for mod in mods:
+                full = (frm + "." + mod) if frm else mod
+                for cand in (full, "Argot." + full):
+                    p = _module_file(cand)
+                    if p and os.path.exists(p):
+                        todo.append(p)
+                        break
+    return sorted(seen)
+
+
+_GATE = re.compile(r"\b(Admitted|admit|Axiom|Axioms|Parameter|Parameters|Conjecture|Conjectures|"
+                   r"Unset\s+Guard\s+Checking|Unset\s+Positivity\s+Checking|Unset\s+Universe\s+Checking|bypass_check|"
+                   r"Admit\s+Obligations|type-in-type|impredicative-set)\b")
+
+
+def grep_gate(files=None):
+    """the development must not contain Admitted/admit/Axiom/Parameter/Conjecture or kernel-check switches.
+    files: the .v files to scan (default: everything under theories/, gen/, extracted/)"""
+    if files is None:
+        files = []
+        for root in ("theories", "gen", "extracted"):
+            for d, _, fs in os.walk(os.path.join(COQ, root)):
+                files += [os.path.join(d, f) for f in fs if f.endswith(".v")]
     bad = []
-    pat = re.compile(r"\b(Admitted|admit|Axiom|Axioms|Parameter|Parameters|Conjecture|Conjectures|Abort All|"
-                     r"Unset Guard Checking|Unset Positivity Checking|Unset Universe Checking|bypass_check|"
-                     r"Admit Obligations|type-in-type|impredicative-set)\b")
-    for root in ("theories", "gen", "extracted"):
-        for d, _, fs in os.walk(os.path.join(COQ, root)):
-            for f in fs:
-                if f.endswith(".v"):
-                    txt = open(os.path.join(d, f)).read()
-                    txt = re.sub(r"\(\*.*?\*\)", "", txt, flags=re.S)
-                    for m in pat.finditer(txt):
-                        bad.append("%s: %s" % (os.path.relpath(os.path.join(d, f), COQ), m.group(0)))
+    for f in files:
+        txt = strip_coq(open(f).read())
+        for m in _GATE.finditer(txt):
+            bad.append("%s: %s" % (os.path.relpath(f, COQ), m.group(0)))
+        # Variable/Hypothesis outside a Section declare axioms
+        depth = 0
+        for m in re.finditer(r"^\s*(Section|Module\s+Type|End|Variables?|Hypothes[ie]s|Context)\b", txt, flags=re.M):
+            k = m.group(1)
+            if k == "Section":
+                depth += 1
+            elif k == "End":
+                depth = max(0, depth - 1)
+            elif k.startswith(("Variable", "Hypothes")) and depth == 0:
+                bad.append("%s: %s outside a Section" % (os.path.relpath(f, COQ), k))
     return bad
 
 
@@ -307,7 +392,7 @@ class Check:
         vfile = os.path.join(COQ, module_rel)
         target = module_rel[:-2] + ".vo"
         names = theorems_of(vfile)
-        bad = grep_gate()
+        bad = grep_gate(coq_deps(vfile))
         ok, log = build_coq([target] + list(extra_targets))
         self.cov["checker_cmd"] = "make -f Makefile.coq -k -j%d %s (coq_makefile, full .vo) + coqc Print Assumptions" % (NCPU, target)
         self.cov["obligations"] = len(names)
